@@ -147,7 +147,14 @@ func lowSelectivityLines(t *rapid.T, n int) []string {
 }
 
 func TestVerifC08_CacheMachine(t *testing.T) {
-	rapid.Check(t, func(t *rapid.T) {
+	rapid.Check(t, func(t *rapid.T) { cacheMachineProp(t, "C08/cache-machine") })
+}
+
+// cacheMachineProp: a history of related queries evaluated with a shared
+// per-chunk result cache must give, for every query, what a fresh evaluation
+// gives (used by C08, and by C05 as its chunk-level history relation).
+func cacheMachineProp(t *rapid.T, unit string) {
+	{
 		algo.Init("default")
 		sortCriteria = []criterion{byScore, byLength}
 		n := rapid.SampledFrom([]int{100, 150, 200, 300}).Draw(t, "n")
@@ -187,11 +194,11 @@ func TestVerifC08_CacheMachine(t *testing.T) {
 				t.Fatalf("query %q after the queries %q (fuzzy=%v, %d lines): result with the shared cache differs from a fresh evaluation: %s\nlines: %q", q, history[:len(history)-1], fuzzy, n, d, compactLines(lines))
 			}
 		}
-		vstat.Case("C08/cache-machine", fmt.Sprintf("%v|%v|%q", fuzzy, history, lines), len(history) >= 3 && n >= 100, fmt.Sprintf("queries=%d", imin(len(history), 8)), fmt.Sprintf("ops=%v", kinds["op"]))
-		if len(history) >= 3 && vstat.WantSample("C08/cache-machine") {
-			vstat.Sample("C08/cache-machine", map[string]interface{}{"queries": history, "lines": n, "fuzzy": fuzzy})
+		vstat.Case(unit, fmt.Sprintf("%v|%v|%q", fuzzy, history, lines), len(history) >= 3 && n >= 100, fmt.Sprintf("queries=%d", imin(len(history), 8)), fmt.Sprintf("ops=%v", kinds["op"]))
+		if len(history) >= 3 && vstat.WantSample(unit) {
+			vstat.Sample(unit, map[string]interface{}{"queries": history, "lines": n, "fuzzy": fuzzy})
 		}
-	})
+	}
 }
 
 func compactLines(lines []string) []string {
